@@ -9,6 +9,7 @@ import (
 // case = nops :: ops ++ put_list(text);  the text is also the key of PrefixSearch / FuzzySearch.
 // output = match(0|1|PANIC) ++ section(FindAll) ++ section(PrefixSearch) ++ section(FuzzySearch),
 // section = PANIC | n :: put_list(s1) ++ ... ++ put_list(sn)
+// a case with the trailing Dump flag: output ++ trieDump(t)  (the built structure, see trie_common.go)
 func c05Section(f func() []string) (out []int64) {
 	defer func() {
 		if r := recover(); r != nil {
@@ -42,6 +43,9 @@ func c05Impl(in []int64) []int64 {
 	out = append(out, c05Section(func() []string { return t.FindAll(text) })...)
 	out = append(out, c05Section(func() []string { return t.PrefixSearch(text) })...)
 	out = append(out, c05Section(func() []string { return t.FuzzySearch(text) })...)
+	if tc.dump {
+		out = append(out, trieDump(t)...)
+	}
 	return out
 }
 
@@ -74,7 +78,36 @@ var c05RawSets = [][]string{
 	{"\xbf\xbd", "\xbd"},
 }
 
+// share of the cases of a family that also observe the built structure (Dump): numerator out of 8, drawn from the
+// case's own PRNG after the case is complete (the case itself does not depend on the draw)
+var c05DumpShare = map[string]int{
+	"late-long": 3, "rebuild": 8, "wide": 8, "dense": 5, "many-irregular": 6, "rebuild-suffix-extension": 6, "no-final-build": 5,
+}
+
 func c05Try(t *T, family string, tc *trieCase) {
+	if !tc.dump {
+		sh, ok := c05DumpShare[family]
+		if !ok {
+			sh = 4 // the random-* families
+		}
+		tc.dump = t.R.Intn(8) < sh
+	}
+	if tc.dump {
+		t.C.Count("dump", family)
+	}
+	ps := tc.patterns()
+	text := string(tc.text)
+	nt := tc.canonical() && (anyOccurs(ps, text) || (text != "" && anyHasPrefix(ps, text)))
+	t.Try(family, tc.encode(false), nt)
+}
+
+// exhaustive families: the structure depends on the pattern set only; it is observed with the first four texts of every
+// set (the other texts run without the flag, as before)
+func c05TryExh(t *T, family string, tc *trieCase, textIdx int) {
+	if textIdx < 4 {
+		tc.dump = true
+		t.C.Count("dump", family)
+	}
 	ps := tc.patterns()
 	text := string(tc.text)
 	nt := tc.canonical() && (anyOccurs(ps, text) || (text != "" && anyHasPrefix(ps, text)))
@@ -88,7 +121,7 @@ func c05Gen(c *Ctx) {
 	c.Each(len(trieSmallSets)*nw, func(i int, t *T) {
 		set := trieSmallSets[i/nw]
 		tc := &trieCase{ops: opsOf(set), text: []byte(wordByIndex(trieASCII, i%nw))}
-		c05Try(t, "exh-abc", tc)
+		c05TryExh(t, "exh-abc", tc, i%nw)
 	})
 	c.Note(fmt.Sprintf("exhaustive part: %d hand-written pattern sets over {a,b,c} x all %d texts of length <= %d; %d sets over 1-4 byte runes and raw bytes x all texts of <= %d units",
 		len(trieSmallSets), nw, L, len(c05UnitSets)+len(c05RawSets), c.N(3, 4)))
@@ -98,14 +131,14 @@ func c05Gen(c *Ctx) {
 	c.Each(len(c05UnitSets)*nu, func(i int, t *T) {
 		set := c05UnitSets[i/nu]
 		tc := &trieCase{ops: opsOf(set), text: []byte(wordByIndex(trieUnits, i%nu))}
-		c05Try(t, "exh-units", tc)
+		c05TryExh(t, "exh-units", tc, i%nu)
 	})
 	// raw sets x texts over raw pieces
 	nr := countWords(len(trieRaw), c.N(2, 3))
 	c.Each(len(c05RawSets)*nr, func(i int, t *T) {
 		set := c05RawSets[i/nr]
 		tc := &trieCase{ops: opsOf(set), text: []byte(wordByIndex(trieRaw, i%nr))}
-		c05Try(t, "exh-raw", tc)
+		c05TryExh(t, "exh-raw", tc, i%nr)
 	})
 	// 3. the late long occurrence over several earlier disjoint ones
 	c.Each(c.N(2500, 40000), func(i int, t *T) {
@@ -260,6 +293,23 @@ func c05Gen(c *Ctx) {
 		
 		c05Try(t, "rebuild-suffix-extension", &tc)
 	})
+	// large irregular tries, always with the Dump observation: 40-80 words of length 3..7 over 3-4 letters; the BFS frontier
+	// passes 40 nodes (third growth of the queue, 40 -> 80); a BFS order that is not first-in first-out leaves wrong or nil
+	// fail links in about 6 % of these sets, and the structure comparison sees every one of them without a text that walks there
+	c.Each(c.N(1200, 20000), func(i int, t *T) {
+		r := t.R
+		ps, letters := largePatternSet(r)
+		var text string
+		for len(text) < 6 {
+			q := ps[r.Intn(len(ps))]
+			text += q[:1+r.Intn(len(q))]
+		}
+		if r.Intn(3) == 0 {
+			text = randWord(r, letters, 0, 8)
+		}
+		tc := trieCase{ops: opsOf(ps), text: []byte(text), dump: true}
+		c05Try(t, "many-large", &tc)
+	})
 	// 6. not canonical: no build at all, or inserts after the last build (nil fail links: panics are compared with the model)
 	c.Each(c.N(1200, 20000), func(i int, t *T) {
 		r := t.R
@@ -282,6 +332,7 @@ func init() {
 		Shrink:   trieShrink(false),
 		Describe: func(in []int64) string { tc, _ := decodeTrieCase(in, false); return tc.describe(false) },
 		Rule: "pattern sets (shared prefixes, patterns nested as suffixes/infixes, duplicates, empty pattern) over {a,b,c}, a 2-, 3- and 4-byte rune and raw bytes 0xff/0xfe, plus truncated-sequence sets; " +
-			"all texts up to length 6 over {a,b,c} for 25 hand-written sets, all texts up to 3 units for the multi-byte sets, random longer texts, keys cut out of patterns, the late-long-occurrence family, wide tries (queue growth), rebuilds, and tries without a final BuildFailureLinks (model comparison only). " +
+			"all texts up to length 6 over {a,b,c} for 25 hand-written sets, all texts up to 3 units for the multi-byte sets, random longer texts, keys cut out of patterns, the late-long-occurrence family, wide tries (queue growth), dense / many-irregular / many-large tries (second and third growth of the BFS queue), rebuilds, and tries without a final BuildFailureLinks (model comparison only). " +
+			"About 3 cases in 8 (histogram `dump`; all of many-large, wide, rebuild; the first four texts of every exhaustive set) also observe the BUILT STRUCTURE: every node's word, isEnd, size, number of children and fail target, read from the real trie through reflect/unsafe, compared with the model's node table and with the automaton computed from the patterns alone. " +
 			"Non-trivial: the trie ends with BuildFailureLinks and some pattern occurs in the text or has the text as a prefix"})
 }
